@@ -312,6 +312,39 @@ func TestVerifC08KeyFamily(t *testing.T) {
 			jobs = append(jobs, job{kt, fmt.Sprintf("fresh-%d", i), vfC08Gen(kt, i), other})
 		}
 	}
+	// OFF-GRID parameters, freshly generated: RSA moduli of seeded random bit lengths that are not a multiple
+	// of 8 (two per run in quick, eight in thorough; about 0.3 s each, in parallel)
+	nOdd := 2
+	if vfh.Thorough() {
+		nOdd = 8
+	}
+	odd := make([]*job, nOdd)
+	orn := vfC08Rnd(seed, 4242)
+	bitsOf := make([]int, nOdd)
+	for i := range bitsOf {
+		for bitsOf[i]%8 == 0 {
+			bitsOf[i] = crypto.MinRsaKeyBits + 1 + orn.Intn(300)
+		}
+	}
+	if err := vfC08Parallel(2*nOdd, func(i int) {
+		if i >= nOdd {
+			return
+		}
+		priv, pub, err := crypto.GenerateKeyPairWithReader(crypto.RSA, bitsOf[i], rand.Reader)
+		if err != nil {
+			vfC08FamMismatch(res, "roundtrip-error:GenerateRSA", fmt.Sprintf("generating a %d-bit RSA key: %v", bitsOf[i], err), nil)
+			return
+		}
+		odd[i] = &job{"RSA", fmt.Sprintf("fresh-%d-bit", bitsOf[i]), vfC08Pair{priv, pub}, vfC08Gen("RSA", 1)}
+		cnt.inc("family.rsa-offgrid-generated", 1)
+	}); err != nil {
+		t.Fatalf("C08 machinery: %v", err)
+	}
+	for _, j := range odd {
+		if j != nil {
+			jobs = append(jobs, *j)
+		}
+	}
 	// the searches for unusual serialisations run in parallel too
 	type search struct{ kt, want string }
 	var searches []search
